@@ -476,13 +476,26 @@ pub fn tpl_program(r: &mut Rng) -> String {
     let (c1, c2, c3, c4) = (cs[0], cs[1], cs[2], cs[3]);
     let n = r.range(2, 9);
     // shapes that took outside eyes to discover get extra weight
-    let shape = match r.below(21) {
+    let shape = match r.below(22) {
         16 | 17 | 18 => 15,
         19 => 0,
         20 => 4,
+        21 if r.below(3) == 0 => 100,
+        21 => 7,
         x => x,
     };
     match shape {
+        // an expression whose one-line rendering is wider than 65 535 columns (whatever
+        // renders it for a message or a log record must cope)
+        100 => {
+            let a = "a".repeat(r.range(33_000, 40_000));
+            let b = "b".repeat(r.range(33_000, 40_000));
+            match r.below(3) {
+                0 => format!("let f = x -> x + \"{a}\" + \"{b}\"\nfrom {t} | select {{y = f {c1}}}\n"),
+                1 => format!("from {t} | derive {{w = \"{a}\" + \"{b}\"}} | filter w == {c1} | select {{{c2}, w}}\n"),
+                _ => format!("from {t} | filter {c1} == \"{a}\" + \"{b}\" + nope_{n}\n"),
+            }
+        }
         // a sorted CTE referenced twice or three times (sort column not in its select)
         0 => {
             let third = if r.below(2) == 0 {
